@@ -13,8 +13,13 @@ open XmppModel XmppModel.Escape
 
 /-! ### Tie to the source: the regenerated constants are the model's constants -/
 
-/-- the escape set read from `jid/escape.go` is the model's set -/
+/-- the bytes the real `jid.Escape` rewrites (all 256 one-byte strings evaluated on every run)
+are the model's set -/
 theorem C16_gen_escape_set : Generated.C16.escapeSet = some escSet := by decide
+
+/-- … and what it writes for each of them is the model's `escByte`; every other byte value is
+left alone by both -/
+theorem C16_gen_escape_table : Generated.C16.escapeTable = some escTable := by decide
 
 /-- the table of rewritten codes, obtained by running the real `Unescape` on all 65536
 byte pairs, is exactly the model's `shouldUnescape`/`unhex2` -/
@@ -436,5 +441,83 @@ theorem C16_unesc_span_ok (atEOF : Bool) (s rest : Bytes) (hrest : atEOF = true 
     simp only [List.take_succ_cons, List.drop_succ_cons, List.cons_append] at i2 ⊢
     rw [← i2]
     exact unescape_cons_nocode h _
+
+
+/-! ### One transformer value shared by many streams (goroutines)
+
+`jid.Escape` / `jid.Unescape` are package-level values.  The result of a stream must depend on
+its own input only, whatever other streams do with the same value in between. -/
+
+/-- **Interleaving independence.**  If no call changes the state of the shared value
+(`Frozen`, the regenerated fact `sharedStateWrites = 0`), then under every interleaving of the
+loop actions of any number of streams each stream ends exactly where it ends when it runs
+alone (same output, same buffer), and the value is unchanged. -/
+theorem C16_shared_independent {σ : Type} (step : SStep σ) (hf : Frozen step) (st : σ) (ds : Nat → Drv)
+    (sched : List (Nat × Act)) (i : Nat) :
+    (driveShared step st ds sched).st = st ∧
+    (driveShared step st ds sched).streams i =
+      (project sched i).foldl (Drv.act (fun c e s => (step st c e s).1)) (ds i) := by
+  unfold driveShared project
+  induction sched generalizing ds with
+  | nil => exact ⟨rfl, rfl⟩
+  | cons ia sched ih =>
+    rw [List.foldl_cons, shared_act_frozen step hf]
+    obtain ⟨h1, h2⟩ := ih (setStream ds ia.1 (Drv.act (fun c e s => (step st c e s).1) (ds ia.1) ia.2))
+    refine ⟨h1, ?_⟩
+    rw [h2]
+    by_cases hi : ia.1 = i
+    · subst hi; simp [setStream]
+    · have : (ia.1 == i) = false := by simpa using hi
+      have hi' : ¬ i = ia.1 := fun h => hi h.symm
+      simp [this, setStream, hi']
+
+/-- the modelled transformers have no state -/
+theorem C16_model_frozen (step : Step) : Frozen (liftStep step) := fun _ _ _ _ => rfl
+
+/-- … so every stream of every interleaved use of the shared `Escape` value that ends with
+everything consumed has produced `escape` of its own input -/
+theorem C16_escape_shared (inputs : Nat → Bytes) (sched : List (Nat × Act)) (i : Nat)
+    (hb : ((driveShared (liftStep fun cap _ src => escStep cap src) () (fun j => ⟨inputs j, [], []⟩) sched).streams i).buf = [])
+    (hp : ((driveShared (liftStep fun cap _ src => escStep cap src) () (fun j => ⟨inputs j, [], []⟩) sched).streams i).pending = []) :
+    ((driveShared (liftStep fun cap _ src => escStep cap src) () (fun j => ⟨inputs j, [], []⟩) sched).streams i).out
+      = escape (inputs i) := by
+  have h := (C16_shared_independent _ (C16_model_frozen fun cap _ src => escStep cap src) ()
+    (fun j => ⟨inputs j, [], []⟩) sched i).2
+  rw [h] at hb hp ⊢
+  exact C16_escape_chunked (inputs i) (project sched i) hb hp
+
+theorem C16_unescape_shared (inputs : Nat → Bytes) (sched : List (Nat × Act)) (i : Nat)
+    (hb : ((driveShared (liftStep unescStep) () (fun j => ⟨inputs j, [], []⟩) sched).streams i).buf = [])
+    (hp : ((driveShared (liftStep unescStep) () (fun j => ⟨inputs j, [], []⟩) sched).streams i).pending = []) :
+    ((driveShared (liftStep unescStep) () (fun j => ⟨inputs j, [], []⟩) sched).streams i).out
+      = unescape (inputs i) := by
+  have h := (C16_shared_independent _ (C16_model_frozen unescStep) ()
+    (fun j => ⟨inputs j, [], []⟩) sched i).2
+  rw [h] at hb hp ⊢
+  exact C16_unescape_chunked (inputs i) (project sched i) hb hp
+
+-- non-vacuity: two streams interleaved byte by byte over the shared value
+example :
+    let w := driveShared (liftStep fun cap _ src => escStep cap src) ()
+      (fun j => ⟨if j = 0 then [0x61, 0x20] else [0x40], [], []⟩)
+      [(0, .feed 1), (1, .feed 1), (0, .call 3), (1, .call 3), (0, .feed 1), (0, .call 3)]
+    (w.streams 0).buf = [] ∧ (w.streams 0).pending = [] ∧ (w.streams 1).buf = [] ∧ (w.streams 1).pending = [] ∧
+    (w.streams 0).out = [0x61, 0x5c, 0x32, 0x30] ∧ (w.streams 1).out = [0x5c, 0x34, 0x30] := by decide
+
+/-- `Frozen` cannot be dropped: a value whose calls write a scratch buffer in the shared state
+gives a stream another stream's escape code (here `&` comes out as `\\20`). -/
+theorem C16_shared_state_matters :
+    ¬ Frozen scratchStep ∧
+    ∃ sched : List (Nat × Act),
+      ((driveShared scratchStep (escByte 0x26) (fun j => ⟨if j = 0 then [0x26] else [0x20], [], []⟩) sched).streams 0).out
+        ≠ ((project sched 0).foldl (Drv.act (fun c e s => (scratchStep (escByte 0x26) c e s).1)) ⟨[0x26], [], []⟩).out := by
+  refine ⟨fun h => absurd (h [] 3 true [0x20]) (by decide), ?_⟩
+  exact ⟨[(0, .feed 1), (1, .feed 1), (1, .call 3), (0, .call 3)], by decide⟩
+
+/-- no call of the real transformers writes memory reachable from the package-level values
+(deep snapshot of `jid.Escape` / `jid.Unescape` before and after a battery of calls through
+every interface, taken by the harness on every run): the model's state type is `Unit` -/
+theorem C16_gen_shared_state :
+    Generated.C16.sharedStateWrites = some [0, 0] := by decide
 
 end XmppModel.Props.C16
